@@ -48,6 +48,11 @@ type c06DB struct {
 	openTx    int
 	bizFails  bool // the business callback returns an error
 	bizRan    bool
+	// a try of the same branch, delivered concurrently, inserts its TRIED record and
+	// commits right after this delivery's locking read found no row
+	raceTry     bool
+	racePending bool
+	raced       bool
 
 	stmts   int // statements issued so far (Prepare, Exec, Query each count)
 	failAt  int // the failAt-th statement fails; -1: none
@@ -127,6 +132,13 @@ func (s *c06Stmt) Exec(args []driver.Value) (driver.Result, error) {
 	if err := s.db.step(); err != nil {
 		return nil, err
 	}
+	if s.db.racePending {
+		// the racing try has committed: its record and its effect are there for everybody
+		s.db.racePending, s.db.raced = false, true
+		for _, t := range []*c06State{&s.db.committed, &s.db.work} {
+			t.present, t.status, t.try = true, byte(enum.StatusTried), t.try+1
+		}
+	}
 	st := &s.db.work
 	switch {
 	case strings.HasPrefix(s.q, "insert into"):
@@ -199,6 +211,9 @@ func (s *c06Stmt) Query(args []driver.Value) (driver.Rows, error) {
 	}
 	if xid == s.db.otherXid && branch == s.db.otherBranch {
 		return &c06Rows{row: []driver.Value{xid, branch, "other", int64(st.otherStatus), c06Epoch, c06Epoch}}, nil
+	}
+	if xid == s.db.xid && branch == s.db.branch && s.db.raceTry && !s.db.raced {
+		s.db.racePending = true
 	}
 	return &c06Rows{}, nil
 }
@@ -294,6 +309,8 @@ func VerifC06Step() {
 		(phase == enum.FencePhaseRollback && (!before.present || before.status == byte(enum.StatusRollbacked) || before.status == byte(enum.StatusSuspended)))
 	// the business step itself may fail once the fence has admitted the delivery
 	db.bizFails = !noop && db.failAt < 0 && vrt.Bool("business.fails")
+	// a rollback that finds no record may be racing with the try of its branch
+	db.raceTry = phase == enum.FencePhaseRollback && !before.present && db.failAt < 0 && vrt.Bool("try.commits.between.read.and.insert")
 
 	err, panicked := c06Deliver(db, sqlDB, phase)
 	post := db.committed
@@ -311,6 +328,16 @@ func VerifC06Step() {
 		vrt.Reach("step/fault")
 		vrt.Assert(err != nil, "step/fault=>error/"+tag)
 		vrt.Assert(c06Same(post, before), "step/fault=>unchanged/"+tag)
+		return
+	}
+	if db.raced {
+		// whoever loses the race is refused or applied after the winner: never both effects
+		// of cancel and a later confirm, never a cancel beside a TRIED record
+		vrt.Reach("step/race")
+		vrt.Assert(c06Inv(post), "step/race/invariant/"+tag)
+		if err == nil {
+			vrt.Assert(post.present && post.status != byte(enum.StatusTried), "step/race/accepted-rollback-is-recorded/"+tag)
+		}
 		return
 	}
 	if db.bizRan {
